@@ -92,17 +92,76 @@ Wrap(kx, d, body) ==
       [] kx = "closure"  -> <<SFn(Fn(d), <<>>, FALSE, <<SDecl(It(d), I(30 + d)), SReturn(EFunc(<<>>, FALSE, <<SPrint(It(d))>> \o body))>>),
                               SDecl(Cnt(d), ECall(Nm(Fn(d)), <<>>)), SPrint(ECall(Cnt(d), <<>>))>>
 
+-----------------------------------------------------------------------------
+(* Evaluation order and exactly-once evaluation (Appendix A of DESIGN.md): every  *)
+(* sub-expression of every construct is wrapped in a tracing call `t(n, v)` that   *)
+(* prints n and returns v, so stdout shows which sub-expressions were evaluated,    *)
+(* how often and in which order.                                                    *)
+TN == <<116>>
+T(n, v) == ECall(Nm(TN), <<I(n), v>>)
+TracerDef == SFn(TN, <<Nm(<<107>>), Nm(<<119>>)>>, FALSE, <<SPrint(Nm(<<107>>)), SReturn(Nm(<<119>>))>>)
+Fv == Nm(<<102, 102>>)
+L2 == EList(<<I(10), I(20), I(30)>>)
+O2 == EObj(<<Pair(EStr(KA), I(1)), Pair(EStr(KB), I(2))>>)
+Orders == [
+  binop      |-> <<SPrint(EBin("+", T(1, I(2)), EBin("*", T(2, I(3)), T(3, I(4)))))>>,
+  noshort    |-> <<SPrint(EBin("&&", T(1, EBool(FALSE)), T(2, EBool(TRUE)))),
+                   SPrint(EBin("||", T(3, EBool(TRUE)), T(4, EBool(FALSE))))>>,
+  call       |-> <<SFn(<<102, 102>>, <<Tmp(1), Tmp(2)>>, FALSE, <<SReturn(EBin("-", Tmp(1), Tmp(2)))>>),
+                   SPrint(ECall(T(1, Fv), <<T(2, I(9)), T(3, I(4))>>))>>,
+  callspread |-> <<SFn(<<102, 102>>, <<Tmp(1), Tmp(2), Tmp(3)>>, TRUE, <<SReturn(EList(<<Tmp(1), Tmp(2), Tmp(3)>>))>>),
+                   SPrint(ECallOf(T(1, Fv), <<Item(T(2, I(9))), Spread(T(3, L2)), Item(T(4, I(5)))>>))>>,
+  list       |-> <<SPrint(EListOf(<<Item(T(1, I(1))), Spread(T(2, L2)), Item(T(3, I(3)))>>))>>,
+  object     |-> <<SPrint(EObj(<<Pair(T(1, EStr(KB)), T(2, I(1))), Pair(T(3, EStr(KA)), T(4, I(2))),
+                                 PSpread(T(5, O2)), Pair(T(6, EStr(KA)), T(7, I(3)))>>))>>,
+  index      |-> <<SPrint(EIndex(T(1, L2), T(2, I(1)))), SPrint(EIndex(T(3, O2), T(4, EStr(KB)))),
+                   SPrint(EIndex(T(5, EStr(<<120, 121>>)), T(6, I(0))))>>,
+  indexbad   |-> <<SPrint(EIndex(T(1, I(5)), T(2, I(1))))>>,
+  rindex     |-> <<SPrint(ERIndex(T(1, L2), T(2, I(0)), T(3, I(2)))), SPrint(ERIndex(T(4, EStr(<<120, 121>>)), ENone, T(5, I(1))))>>,
+  range      |-> <<SPrint(ERange(T(1, I(0)), T(2, I(2))))>>,
+  prop       |-> <<SPrint(EProp(T(1, O2), KA)), SPrint(ECall(ETProp(T(2, EStr(<<120>>)), N_len), <<>>))>>,
+  interp     |-> <<SPrint(EIStr(<<Lit(<<60>>), SlotP(0, T(1, EStr(<<97>>))), Lit(<<45>>), SlotP(0, T(2, EStr(<<98>>))), Lit(<<62>>)>>))>>,
+  declare    |-> <<SDecl(EPat(<<Tmp(1), Tmp(2)>>), T(1, EList(<<I(1), I(2)>>))), SPrint(Tmp(2))>>,
+  destructtargets |-> <<SDecl(Tmp(1), EList(<<I(0), I(0)>>)), SDecl(Tmp(2), EObj(<<>>)),
+                        SAssign(EPat(<<EIndex(T(1, Tmp(1)), T(2, I(1))), EProp(T(3, Tmp(2)), KA)>>), T(4, EList(<<I(7), I(8)>>))),
+                        SPrint(Tmp(1)), SPrint(Tmp(2))>>,
+  idxassign  |-> <<SDecl(Tmp(1), L2), SAssign(EIndex(T(1, Tmp(1)), T(2, I(0))), T(3, I(9))), SPrint(Tmp(1))>>,
+  objidxassign |-> <<SDecl(Tmp(1), O2), SAssign(EIndex(T(1, Tmp(1)), T(2, EStr(<<99>>))), T(3, I(9))), SPrint(Tmp(1))>>,
+  propassign |-> <<SDecl(Tmp(1), O2), SAssign(EProp(T(1, Tmp(1)), KA), T(2, I(9))), SPrint(Tmp(1))>>,
+  rangeassign |-> <<SDecl(Tmp(1), L2), SAssign(ERIndex(T(1, Tmp(1)), T(2, I(0)), T(3, I(2))), T(4, EList(<<I(7), I(8)>>))),
+                    SPrint(Tmp(1))>>,
+  opassign   |-> <<SDecl(Tmp(1), L2), SOpAssign(EIndex(T(1, Tmp(1)), T(2, I(0))), "+", T(3, I(5))),
+                   SDecl(Tmp(2), O2), SOpAssign(EProp(T(4, Tmp(2)), KA), "*", T(5, I(5))), SPrint(Tmp(1)), SPrint(Tmp(2))>>,
+  ifchain    |-> <<SIfOf(<<Branch(T(1, EBool(FALSE)), <<P(91)>>), Branch(T(2, EBool(TRUE)), <<P(92)>>),
+                            Branch(T(3, EBool(TRUE)), <<P(93)>>)>>, Else(<<P(94)>>))>>,
+  while      |-> <<SDecl(Tmp(1), I(0)), SWhile(T(1, EBin("<", Tmp(1), I(2))), <<SOpAssign(Tmp(1), "+", I(1)), SIf(EBin("==", Tmp(1), I(1)), <<SContinue>>)>>)>>,
+  forlist    |-> <<SFor(Tmp(1), T(1, L2), <<SPrint(EIndex(Tmp(1), I(1)))>>)>>,
+  forrange   |-> <<SDecl(Tmp(2), I(3)),
+                   SFor(Tmp(1), ERange(T(1, I(0)), T(2, Tmp(2))), <<SOpAssign(Tmp(2), "-", I(1)), SPrint(EIndex(Tmp(1), I(1)))>>),
+                   SPrint(Tmp(2))>>,
+  forrangefn |-> <<SDecl(Tmp(2), I(3)), SFn(<<108, 109>>, <<>>, FALSE, <<SPrint(I(77)), SReturn(Tmp(2))>>),
+                   SFor(EPat(<<EVar(N_us), Tmp(1)>>), ERange(I(0), ECall(Nm(<<108, 109>>), <<>>)),
+                        <<SOpAssign(Tmp(2), "-", I(1)), SPrint(Tmp(1))>>)>>,
+  return     |-> <<SFn(<<102, 102>>, <<>>, FALSE, <<SReturn(T(1, EBin("+", T(2, I(1)), I(1))))>>), SPrint(ECall(Fv, <<>>))>>,
+  objdestruct |-> <<SDecl(EObj(<<Pair(T(1, EStr(KA)), Tmp(1)), Pair(T(2, EStr(KB)), Tmp(2))>>), T(3, O2)),
+                    SPrint(EBin("-", Tmp(1), Tmp(2)))>>,
+  nestedcall |-> <<SPrint(T(1, T(2, T(3, I(4)))))>>,
+  argsthenerror |-> <<SPrint(ECall(T(1, I(5)), <<T(2, I(1))>>))>>
+]
+
 \* parameter tuples <<family, outer, inner, innermost, payload>>
 C01Params ==
     { <<"d2", k1, k2, "-", p>> : k1 \in Constructs, k2 \in Constructs \ {"seq"}, p \in Payloads }
+OrderParams == { <<"order", kx, "-", "-", o>> : kx \in {"seq", "namedfn", "forlist"}, o \in DOMAIN Orders }
 C01ParamsQuick ==
+    OrderParams \cup
     { <<"d2", k1, k2, "-", p>> :
         k1 \in Constructs, k2 \in {"block", "while", "forlist", "namedfn", "method", "closure"}, p \in Payloads }
 C01ParamsTiny ==
     { <<"d2", k1, k2, "-", p>> :
         k1 \in {"seq", "if", "forobject", "anonfn"}, k2 \in {"block", "while", "method"}, p \in Payloads }
 C01ParamsThorough ==
-    C01Params
+    C01Params \cup { <<"order", kx, "-", "-", o>> : kx \in Constructs, o \in DOMAIN Orders }
     \cup { <<"d3", k1, k2, k3, p>> :
              k1 \in Constructs \ {"seq"}, k2 \in Constructs \ {"seq"}, k3 \in Constructs \ {"seq", "else"}, p \in Payloads }
     \cup { <<"pp", k1, p1, "-", p2>> : k1 \in Constructs, p1 \in Payloads, p2 \in Payloads }
@@ -115,5 +174,6 @@ C01ProgOf(p) ==
                         \o Final
       \* two payloads in sequence inside one construct (a construct depends on the rest of
       \* the program only through values and bindings)
+      [] p[1] = "order" -> <<TracerDef>> \o Wrap(p[2], 1, Orders[p[5]]) \o <<P(0)>>
       [] p[1] = "pp" -> Env \o Wrap(p[2], 1, Payload(p[3]) \o <<SBlock(Payload(p[5]))>>) \o Final
 =============================================================================
